@@ -624,3 +624,6 @@ B("C13", BASE, "        boolean_cols = channel_names\n", "        boolean_cols =
 P("C13", BASE, "        boolean_cols = channel_names\n", "        boolean_cols = [channel._name for channel in self.base.channels]\n")
 # partial application binds by name
 B("C16", CU, "    return partial(_radius, cutoffs=cutoffs, radiuses=radiuses)", "    return partial(_radius, cutoffs, radiuses)", "R-C16-argnames")
+# module state handed to the steppers is only read; a mutable default never becomes module state
+B("C18", SV, "    vecfield = vecfield.at[:, 1:].add((voltages[:, :-1] - voltages[:, 1:]) * lowers)\n", "    vecfield = vecfield.at[:, 1:].add((voltages[:, :-1] - voltages[:, 1:]) * lowers)\n    debug_states.update(vecfield=vecfield)\n", "R-C18-tracer")
+P("C18", SV, "    vecfield = vecfield.at[:, 1:].add((voltages[:, :-1] - voltages[:, 1:]) * lowers)\n", "    vecfield = vecfield.at[:, 1:].add((voltages[:, :-1] - voltages[:, 1:]) * lowers)\n    debug_states = dict(debug_states)\n    debug_states[\"vecfield\"] = vecfield\n")
